@@ -702,6 +702,7 @@ class Checker(object):
             acc.transitions += 1
             if ev[0] == "use":
                 after = "first-use"
+                lines.append("pt.C.neutron.scattering(); pt.Gd[157].neutron.sld()      # the public table has been used")
             elif ev[0] == "init":
                 i, kind = ev[1], ev[2]
                 name = "verif-c03-%d" % i
